@@ -26,7 +26,7 @@ def rejected_catalogue(rnd, script, sig_names, idx):
     decls = script["decls"]
     names = [c[2] for c in script["cmds"][:idx] if c[0] == "assert-named"]
     k = rnd.choice(["illsorted", "unknown", "nonbool", "dupname", "partialname", "name-in-rejected", "dupdecl", "dupsort", "define-mismatch",
-                    "define-unknown-sort", "define-existing", "pop-beyond", "neg-push", "overflow-pop", "getvalue-illsorted", "wrong-mode"])
+                    "define-unknown-sort", "define-existing", "redefine-macro", "redefine-macro", "pop-beyond", "neg-push", "overflow-pop", "getvalue-illsorted", "wrong-mode"])
     boolv = [d.split()[1] for d in decls if d.endswith("() Bool)")]
     numv = [d.split()[1] for d in decls if d.endswith("() Int)") or d.endswith("() Real)")]
     b = rnd.choice(boolv) if boolv else "true"
@@ -54,6 +54,12 @@ def rejected_catalogue(rnd, script, sig_names, idx):
         return "(define-fun %s () Int %s)" % ("df" + fresh, b), k, ["df" + fresh]
     if k == "define-unknown-sort":
         return "(define-fun %s ((x Nosuchsort)) Bool true)" % ("df" + fresh), k, ["df" + fresh]
+    if k == "redefine-macro":
+        macros = [c for c in script["cmds"][:idx] if c[0] == "define-fun"]
+        if macros:
+            m = rnd.choice(macros)
+            probe = ["use:" + m[1]] if not m[2].strip() else []
+            return "(define-fun %s (%s) %s %s)" % (m[1], m[2], m[3], m[4] if rnd.random() < 0.5 else ("true" if m[3] == "Bool" else m[4])), k, probe
     if k == "define-existing" and boolv:
         return "(define-fun %s () Bool true)" % rnd.choice(boolv), k, []
     if k == "pop-beyond":
@@ -93,7 +99,10 @@ def generate(rnd, tier):
         kinds.append(kind)
     # probes re-using the fresh names (in H and H'): accepted iff the rejected commands left nothing behind
     for f in sorted(set(fresh_all)):
-        if f.startswith("df"):
+        if f.startswith("use:"):
+            # the existing definition must still be usable after the rejected re-definition (and after pops)
+            cmds.append(["raw", "(assert (= %s %s))" % (f[4:], f[4:]), "PROBE"])
+        elif f.startswith("df"):
             cmds.append(["raw", "(define-fun %s () Bool true)" % f, "PROBE"])
         else:
             cmds.append(["raw", "(assert (! true :named %s))" % f, "PROBE"])
